@@ -116,6 +116,19 @@ type runner struct {
 	prog   *Prog
 }
 
+// edge draws an edge-biased scalar; unlike vh.EdgeScalar it also covers every
+// small value 0..40 (window and digit boundaries of the multipliers).
+func edge(r *vh.Rng, q *big.Int) *big.Int {
+	if r.Chance(22) {
+		v := big.NewInt(int64(r.Intn(41)))
+		if r.Chance(25) {
+			v.Sub(q, v)
+		}
+		return v.Mod(v, q)
+	}
+	return r.EdgeScalar(q)
+}
+
 func unsupported(msg string) bool {
 	return strings.Contains(msg, "unsupported") || strings.Contains(msg, "not implemented")
 }
@@ -147,6 +160,85 @@ func (x *runner) pushScalar(s kyber.Scalar) {
 	x.scv = append(x.scv, vh.ScalarVal(s))
 }
 
+// scalarOperands chooses the receiver of a binary scalar operation: a fresh
+// scalar, or (about a third of the time) a clone of one operand that is then
+// passed as that operand too, so that receiver == first / second / both operands.
+func (x *runner) scalarOperands(a, b int) (recv, oa, ob kyber.Scalar, note string) {
+	oa, ob = x.sc[a], x.sc[b]
+	recv = x.groups[0].Scalar()
+	switch x.r.Intn(9) {
+	case 0:
+		recv = oa.Clone()
+		oa = recv
+		if a == b {
+			ob = recv
+		}
+		note = "  [receiver = first operand]"
+	case 1:
+		recv = ob.Clone()
+		ob = recv
+		if a == b {
+			oa = recv
+		}
+		note = "  [receiver = second operand]"
+	case 2:
+		if a == b {
+			recv = oa.Clone()
+			oa, ob = recv, recv
+			note = "  [receiver = both operands]"
+		}
+	}
+	return
+}
+
+// pointOperands is the analogue for points of pool gi.
+func (x *runner) pointOperands(gi, a, b int) (recv, oa, ob kyber.Point, note string) {
+	oa, ob = x.pts[gi][a], x.pts[gi][b]
+	recv = newPoint(x.in, x.groups[gi])
+	switch x.r.Intn(9) {
+	case 0:
+		recv = oa.Clone()
+		oa = recv
+		if a == b {
+			ob = recv
+		}
+		note = "  [receiver = first operand]"
+	case 1:
+		recv = ob.Clone()
+		ob = recv
+		if a == b {
+			oa = recv
+		}
+		note = "  [receiver = second operand]"
+	case 2:
+		if a == b {
+			recv = oa.Clone()
+			oa, ob = recv, recv
+			note = "  [receiver = both operands]"
+		}
+	}
+	if x.in.VarTime {
+		if av, ok := recv.(kyber.AllowsVarTime); ok {
+			av.AllowVarTime(true)
+		}
+	}
+	return
+}
+
+// equalPartner returns, when there is one, another pool index holding a point
+// Equal to pts[a] (typically in a different internal representation).
+func (x *runner) equalPartner(gi, a int) (int, bool) {
+	n := len(x.pts[gi])
+	start := x.r.Intn(n)
+	for k := 0; k < n; k++ {
+		j := (start + k) % n
+		if j != a && x.pts[gi][j].Equal(x.pts[gi][a]) {
+			return j, true
+		}
+	}
+	return 0, false
+}
+
 func (x *runner) stepScalar() {
 	r, g := x.r, x.groups[0]
 	n := len(x.sc)
@@ -156,7 +248,7 @@ func (x *runner) stepScalar() {
 	}
 	switch {
 	case c < 35:
-		v := r.EdgeScalar(x.q)
+		v := edge(r, x.q)
 		var s kyber.Scalar
 		if v.IsInt64() && r.Bool() {
 			s = g.Scalar().SetInt64(v.Int64())
@@ -167,34 +259,40 @@ func (x *runner) stepScalar() {
 		x.emit(fmt.Sprintf("OSConst %s", vh.CoqZ(v)), fmt.Sprintf("s%d := %s", n, v))
 	case c < 50:
 		a, b := r.Intn(n), r.Intn(n)
-		x.pushScalar(g.Scalar().Add(x.sc[a], x.sc[b]))
-		x.emit(fmt.Sprintf("OSAdd %d %d", a, b), fmt.Sprintf("s%d := s%d + s%d", n, a, b))
+		rc, oa, ob, al := x.scalarOperands(a, b)
+		x.pushScalar(rc.Add(oa, ob))
+		x.emit(fmt.Sprintf("OSAdd %d %d", a, b), fmt.Sprintf("s%d := s%d + s%d%s", n, a, b, al))
 	case c < 60:
 		a, b := r.Intn(n), r.Intn(n)
-		x.pushScalar(g.Scalar().Sub(x.sc[a], x.sc[b]))
-		x.emit(fmt.Sprintf("OSSub %d %d", a, b), fmt.Sprintf("s%d := s%d - s%d", n, a, b))
+		rc, oa, ob, al := x.scalarOperands(a, b)
+		x.pushScalar(rc.Sub(oa, ob))
+		x.emit(fmt.Sprintf("OSSub %d %d", a, b), fmt.Sprintf("s%d := s%d - s%d%s", n, a, b, al))
 	case c < 75:
 		a, b := r.Intn(n), r.Intn(n)
-		x.pushScalar(g.Scalar().Mul(x.sc[a], x.sc[b]))
-		x.emit(fmt.Sprintf("OSMul %d %d", a, b), fmt.Sprintf("s%d := s%d * s%d", n, a, b))
+		rc, oa, ob, al := x.scalarOperands(a, b)
+		x.pushScalar(rc.Mul(oa, ob))
+		x.emit(fmt.Sprintf("OSMul %d %d", a, b), fmt.Sprintf("s%d := s%d * s%d%s", n, a, b, al))
 	case c < 83:
 		a := r.Intn(n)
-		x.pushScalar(g.Scalar().Neg(x.sc[a]))
-		x.emit(fmt.Sprintf("OSNeg %d", a), fmt.Sprintf("s%d := -s%d", n, a))
+		rc, oa, _, al := x.scalarOperands(a, a)
+		x.pushScalar(rc.Neg(oa))
+		x.emit(fmt.Sprintf("OSNeg %d", a), fmt.Sprintf("s%d := -s%d%s", n, a, al))
 	case c < 92:
 		a := r.Intn(n)
 		if x.scv[a].Sign() == 0 {
 			return
 		}
-		x.pushScalar(g.Scalar().Inv(x.sc[a]))
-		x.emit(fmt.Sprintf("OSInv %d", a), fmt.Sprintf("s%d := 1/s%d", n, a))
+		rc, oa, _, al := x.scalarOperands(a, a)
+		x.pushScalar(rc.Inv(oa))
+		x.emit(fmt.Sprintf("OSInv %d", a), fmt.Sprintf("s%d := 1/s%d%s", n, a, al))
 	default:
 		a, b := r.Intn(n), r.Intn(n)
 		if x.scv[b].Sign() == 0 {
 			return
 		}
-		x.pushScalar(g.Scalar().Div(x.sc[a], x.sc[b]))
-		x.emit(fmt.Sprintf("OSDiv %d %d", a, b), fmt.Sprintf("s%d := s%d / s%d", n, a, b))
+		rc, oa, ob, al := x.scalarOperands(a, b)
+		x.pushScalar(rc.Div(oa, ob))
+		x.emit(fmt.Sprintf("OSDiv %d %d", a, b), fmt.Sprintf("s%d := s%d / s%d%s", n, a, b, al))
 	}
 }
 
@@ -246,39 +344,61 @@ func (x *runner) stepPoint(gi int) {
 		}
 	case c < 22:
 		a := r.Intn(n)
-		if r.Bool() {
+		how := "Clone"
+		switch r.Intn(3) {
+		case 0:
 			p = x.pts[gi][a].Clone()
-		} else {
+		case 1:
+			how = "Set"
 			p = newPoint(x.in, g).Set(x.pts[gi][a])
+		default:
+			// the same value in its freshly decoded internal representation
+			how = "Unmarshal(Marshal)"
+			b, err := x.pts[gi][a].MarshalBinary()
+			p = newPoint(x.in, g)
+			if err != nil || p.UnmarshalBinary(b) != nil {
+				x.prog.Panic = fmt.Sprintf("re-decoding of an own encoding failed (%x)", b)
+				return
+			}
 		}
 		x.pts[gi] = append(x.pts[gi], p)
-		x.emit(fmt.Sprintf("OPCopy %d %d", gi, a), fmt.Sprintf("P%d_%d := P%d_%d", gi, n, gi, a))
+		x.emit(fmt.Sprintf("OPCopy %d %d", gi, a), fmt.Sprintf("P%d_%d := %s(P%d_%d)", gi, n, how, gi, a))
 	case c < 42:
 		a, b := r.Intn(n), r.Intn(n)
-		if x.try(fmt.Sprintf("Add/%d", gi), func() { p = newPoint(x.in, g).Add(x.pts[gi][a], x.pts[gi][b]) }) {
+		if j, ok := x.equalPartner(gi, a); ok && r.Chance(35) {
+			b = j // the same group element held in two internal representations
+		}
+		rc, oa, ob, al := x.pointOperands(gi, a, b)
+		if x.try(fmt.Sprintf("Add/%d", gi), func() { p = rc.Add(oa, ob) }) {
 			x.pts[gi] = append(x.pts[gi], p)
-			x.emit(fmt.Sprintf("OPAdd %d %d %d", gi, a, b), fmt.Sprintf("P%d_%d := P%d_%d + P%d_%d", gi, n, gi, a, gi, b))
+			x.emit(fmt.Sprintf("OPAdd %d %d %d", gi, a, b), fmt.Sprintf("P%d_%d := P%d_%d + P%d_%d%s", gi, n, gi, a, gi, b, al))
 		}
 	case c < 54:
 		a, b := r.Intn(n), r.Intn(n)
-		if x.try(fmt.Sprintf("Sub/%d", gi), func() { p = newPoint(x.in, g).Sub(x.pts[gi][a], x.pts[gi][b]) }) {
+		if j, ok := x.equalPartner(gi, a); ok && r.Chance(35) {
+			b = j
+		}
+		rc, oa, ob, al := x.pointOperands(gi, a, b)
+		if x.try(fmt.Sprintf("Sub/%d", gi), func() { p = rc.Sub(oa, ob) }) {
 			x.pts[gi] = append(x.pts[gi], p)
-			x.emit(fmt.Sprintf("OPSub %d %d %d", gi, a, b), fmt.Sprintf("P%d_%d := P%d_%d - P%d_%d", gi, n, gi, a, gi, b))
+			x.emit(fmt.Sprintf("OPSub %d %d %d", gi, a, b), fmt.Sprintf("P%d_%d := P%d_%d - P%d_%d%s", gi, n, gi, a, gi, b, al))
 		}
 	case c < 62:
 		a := r.Intn(n)
-		if x.try(fmt.Sprintf("Neg/%d", gi), func() { p = newPoint(x.in, g).Neg(x.pts[gi][a]) }) {
+		rc, oa, _, al := x.pointOperands(gi, a, a)
+		if x.try(fmt.Sprintf("Neg/%d", gi), func() { p = rc.Neg(oa) }) {
 			x.pts[gi] = append(x.pts[gi], p)
-			x.emit(fmt.Sprintf("OPNeg %d %d", gi, a), fmt.Sprintf("P%d_%d := -P%d_%d", gi, n, gi, a))
+			x.emit(fmt.Sprintf("OPNeg %d %d", gi, a), fmt.Sprintf("P%d_%d := -P%d_%d%s", gi, n, gi, a, al))
 		}
 	case c < 88:
 		if ns == 0 {
 			return
 		}
 		a, s := r.Intn(n), r.Intn(ns)
-		if x.try(fmt.Sprintf("Mul/%d", gi), func() { p = newPoint(x.in, g).Mul(x.sc[s], x.pts[gi][a]) }) {
+		rc, oa, _, al := x.pointOperands(gi, a, a)
+		if x.try(fmt.Sprintf("Mul/%d", gi), func() { p = rc.Mul(x.sc[s], oa) }) {
 			x.pts[gi] = append(x.pts[gi], p)
-			x.emit(fmt.Sprintf("OPMul %d %d %d", gi, s, a), fmt.Sprintf("P%d_%d := s%d * P%d_%d", gi, n, s, gi, a))
+			x.emit(fmt.Sprintf("OPMul %d %d %d", gi, s, a), fmt.Sprintf("P%d_%d := s%d * P%d_%d%s", gi, n, s, gi, a, al))
 		}
 	default:
 		if ns == 0 {
